@@ -201,6 +201,18 @@ def run(tier):
         add({'e': 'un', 'g': g, 'lang': t['lang'], 'x': t['x'], 'table': t['unary'], 'tab': [], 'raised': o['raised'], 'res': o['res'],
              'xa': o['x_after']}, {'x': enc.show_cat(t['x']), 'y': '(unary:%s)' % t['unary'], 'raised': o['exc'], 'n_results': len(o['res'])})
     rejects, stats = validate('traces/RulesTrace.tla', events, 'c14', per_shard=12000, group='g', env={'AUX_FILE': rules.aux_file()})
+    from ..trace import binding_demo
+
+    def change_obs(e):
+        if e['e'] == 'obs' and e['seed'] != seeds[0] and e['res']:
+            e['res'] = e['res'][1:]
+            return e
+
+    def filt_partial(e):
+        if e['e'] == 'filt' and len(e['full']) > 1 and e['res']:
+            e['res'] = e['res'][:1]
+            return e
+    demo = binding_demo('traces/RulesTrace.tla', events, [('one_observation_changed', change_obs), ('filtered_result_partial', filt_partial)], 'c14', env={'AUX_FILE': rules.aux_file()}, group='g')
     viols = []
     for (i, clause) in rejects:
         if not clause.startswith('C14.'):
@@ -211,6 +223,7 @@ def run(tier):
         'states': states + stats.states,
         'transitions': trans + stats.transitions,
         'traces_validated_against_impl': len(events),
+        'binding_demonstration': demo,
         'events': {'keys_observed_in_every_process': len(tasks), 'hash_seeds': seeds, 'observations': n_obs, 'multi_variable_pairs': len(mv),
                    'filter_events': n_f, 'filter_events_with_nonempty_result': n_member, 'nb_pairs': n_nb, 'unary_lookups': len(ut)},
         'samples': [metas[i] for i in (2, 3, len(events) - len(ut) - 5, len(events))],
